@@ -281,6 +281,11 @@ pub fn self_monitors(mon: &mut Monitor, w: &World, rig: &Rig, events: &[Ev], sna
             out.oracle_fail("view_change_unjustified", "the replica entered a view without holding a certificate for the preceding view", op.clone());
         }
     }
+    // C05 (spec, on_timeout / on_new_view / on_proposal): a timeout certificate for view W is only ever adopted together
+    // with a move to a view above W
+    if ht.is_some_and(|v| v >= snap.view.0) {
+        out.oracle_fail("view_not_above_timeout_qc", "the replica holds a timeout certificate for a view at or above the view it is in (it must enter the view after the certificate's view)", op.clone());
+    }
     mon.last_view = snap.view.0;
     mon.last_hcqc = hc;
     mon.last_htqc = ht;
@@ -456,6 +461,20 @@ impl Gen<'_> {
         s.sort();
         s
     }
+    /// A justification for entering `cur` (>= 1) built from what the replica holds: the certified block of view cur-1 if its
+    /// highest commit certificate is for that view, else a "nobody voted" timeout certificate of view cur-1 over that
+    /// certificate. Certifies nothing new.
+    fn just_held(&mut self, cur: u64, hc_view: Option<u64>) -> AJust {
+        let prev = cur - 1;
+        match hc_view {
+            Some(v) if v == prev && self.certified.contains_key(&v) => AJust::Commit(self.valid_cqc(v, 0, 0)),
+            _ => {
+                let hq = hc_view.filter(|v| self.certified.contains_key(v) && *v < prev).map(|v| self.valid_cqc(v, 0, 0));
+                let signers = self.quorum_set();
+                AJust::Timeout(atqc(self.n, aview(prev), &[(ATVote { view: aview(prev), hv: None, hq }, signers)]))
+            }
+        }
+    }
     /// A valid commit certificate for `view`. Within one case at most one block is ever certified per view (as in any
     /// execution with at most f faulty weight): the first (n, h) chosen for a view is reused.
     fn valid_cqc(&mut self, view: u64, n: u64, h: u64) -> ACqc {
@@ -600,15 +619,7 @@ impl ReplicaProp {
                         let tq = atqc(n, aview(0), &[(ATVote { view: aview(0), hv: None, hq: None }, signers)]);
                         Some(json!({"op":"msg","from":g.rng.gen_range(0..n),"sig_ok":true,"msg":{"newview":AJust::Timeout(tq)}}))
                     } else if snap.phase == v2::Phase::Prepare {
-                        let prev = cur - 1;
-                        let just = match hc_view {
-                            Some(v) if v == prev && g.certified.contains_key(&v) => AJust::Commit(g.valid_cqc(v, 0, 0)),
-                            _ => {
-                                let hq = hc_view.filter(|v| g.certified.contains_key(v)).map(|v| g.valid_cqc(v, 0, 0));
-                                let signers = g.quorum_set();
-                                AJust::Timeout(atqc(n, aview(prev), &[(ATVote { view: aview(prev), hv: None, hq }, signers)]))
-                            }
-                        };
+                        let just = g.just_held(cur, hc_view);
                         fresh += 1;
                         if !payload_ok(fresh) { fresh += 1; }
                         happy -= 1;
@@ -632,6 +643,41 @@ impl ReplicaProp {
                         out.emit(op, obs);
                         continue;
                     }
+                }
+                // directed multi-message families (6% of the steps)
+                if self.mode != Mode::Flood && g.rng.gen_range(0..100) < 6 {
+                    let hc_view = snap.high_commit_qc.as_ref().map(|q| q.view().number.0);
+                    if g.rng.gen_bool(0.6) {
+                        // a quorum of votes of one kind for ONE view at or above the current one, from distinct signers: the
+                        // replica assembles the certificate itself and must move to the view after the CERTIFICATE's view
+                        let w_view = cur + *[0u64, 0, 1, 2, 7].choose(g.rng).unwrap();
+                        let signers = g.quorum_set();
+                        out.count("family=vote_burst");
+                        if g.rng.gen_bool(0.5) {
+                            let h = g.rng.gen_range(1..4);
+                            let (bn, h) = *g.certified.entry(w_view).or_insert((base_n, h));
+                            for i in signers {
+                                pending.push_back(json!({"op":"msg","from":i,"sig_ok":true,"msg":{"commit":avote(w_view, bn, h)}}));
+                            }
+                        } else {
+                            let hq = hc_view.filter(|v| g.certified.contains_key(v) && *v < w_view).map(|v| g.valid_cqc(v, 0, 0));
+                            for i in signers {
+                                pending.push_back(json!({"op":"msg","from":i,"sig_ok":true,"msg":{"timeout":ATVote { view: aview(w_view), hv: None, hq: hq.clone() }}}));
+                            }
+                        }
+                    } else if cur >= 1 {
+                        // the view's timer fires, then the leader's new-view and proposal for the SAME view arrive late: a
+                        // timeout vote is a promise not to vote in that view any more
+                        out.count("family=late_leader_after_timeout");
+                        let just = g.just_held(cur, hc_view);
+                        let leader = g.leader(cur);
+                        fresh += 1;
+                        if !payload_ok(fresh) { fresh += 1; }
+                        pending.push_back(json!({"op":"tick","crash":Value::Null}));
+                        pending.push_back(json!({"op":"msg","from":leader,"sig_ok":true,"msg":{"newview":just.clone()}}));
+                        pending.push_back(json!({"op":"msg","from":leader,"sig_ok":true,"msg":{"proposal":{"payload":fresh,"just":just}},"crash":Value::Null}));
+                    }
+                    continue;
                 }
                 let roll = g.rng.gen_range(0..100);
                 let crash = if self.mode == Mode::Crash && g.rng.gen_bool(0.35) {
